@@ -114,6 +114,7 @@ def shard_main(args):
     except Exception:  # noqa
         pass
     os.environ["VERIF_SHARD"] = str(shard)
+    os.environ["VERIF_NSHARDS"] = str(nshards)
     os.environ["VERIF_RUN_SEED"] = str(seed)
     out = {"shard": shard, "violations": [], "error": None, "parts": []}
     t0 = time.time()
